@@ -308,7 +308,54 @@ def flag_records():
             recs.append({"kind": "flags", "tbl": tbl, "rowix": ix, "cls": q, "tw": 1 if c.sendtwice else 0,
                          "dt": c.devicetype if isinstance(c.devicetype, int) else -1,
                          "q": 1 if c.response is not None else 0, "yn": yn})
+            # ... and what command OBJECTS say about themselves: constructed with parameters from all over the range, and
+            # decoded from their own frame (a driver reads the flags off the object it is handed)
+            seen = set()
+            for obj in _objects(tbl, row, c):
+                for o in (obj, _redecode(obj, c)):
+                    if o is None:
+                        continue
+                    try:
+                        fl = (1 if o.sendtwice else 0, o.devicetype if isinstance(o.devicetype, int) else -1,
+                              1 if o.response is not None else 0)
+                    except Exception:
+                        fl = (-1, -1, -1)
+                    if fl not in seen:
+                        seen.add(fl)
+                        recs.append({"kind": "flags", "tbl": tbl, "rowix": ix, "cls": q, "tw": fl[0], "dt": fl[1], "q": fl[2],
+                                     "yn": yn})
     return recs
+
+
+def _objects(tbl, row, c):
+    none = ["none", 0]
+    fl = row[4] if tbl == "devspecial" else row[3]
+    if tbl == "gear":
+        tries = [(["gshort", 5], none, p) for p in (NOARG, 0, 6, 15)]
+    elif tbl == "gearspecial":
+        tries = [(none, none, p) for p in ((0, 1, 6, 8, 200, 255) if "B" in fl else (0, 5, 63, 255) if "A" in fl else
+                                           (IBCAST, IUNADDR, 5) if "I" in fl else (NOARG,))]
+    elif tbl == "dev":
+        tries = [(["dshort", 5], none, p) for p in (NOARG, 0, 6)]
+    elif tbl == "inst":
+        tries = [(["dshort", 5], ["number", 2], p) for p in (NOARG, 0, 6)]
+    else:
+        tries = [(none, none, p) for p in ((0x0102, 0, 0xFFFF) if "2" in fl else (0, 6, 255) if "1" in fl else (NOARG,))]
+    for dest, inst, p in tries:
+        try:
+            yield construct(tbl, row, c, dest, inst, p)
+        except Exception:
+            continue
+
+
+def _redecode(obj, c):
+    from dali import command
+    try:
+        dt = c.devicetype if isinstance(c.devicetype, int) else 0
+        r = command.from_frame(obj.frame, devicetype=dt)
+        return r if type(r) is type(obj) else None
+    except Exception:
+        return None
 
 
 def _run(job):
